@@ -55,6 +55,33 @@ def main():
         tr_names = {}
         for tr in F0.d.get("traits", []):
             tr_names.setdefault(ir_short(tr["path"]), set()).add(tr["path"])
+        # a crate trait that carries the name of a foreign trait the crate's types implement (`trait Default<P = usize>`,
+        # `trait Display<Sink = ()>`) is mistaken for it by every "the Default / Display impl of X" lookup
+        foreign_tr = {ir_short(i_["trait"]) for i_ in F0.impls if i_.get("of_trait") and i_.get("trait") and i_.get("trait_krate") != F0.d["crate"]}
+        foreign_tr |= {"Default", "Display", "Debug", "Clone", "Copy", "Drop", "From", "Into", "TryFrom", "TryInto", "Iterator", "PartialEq", "Eq", "PartialOrd", "Ord", "Hash", "Send", "Sync",
+                       "Serialize", "Deserialize", "Error", "AsRef", "AsMut", "Deref", "DerefMut", "Fn", "FnMut", "FnOnce", "ToString", "ToOwned", "Borrow"}
+        for nm, paths in sorted(tr_names.items()):
+            if nm in foreign_tr:
+                rep.violation("%s:ambiguous-name:trait %s" % (prop, nm), "NAM", "the crate defines a trait called %s (%s), the name of a std / serde trait its types implement" % (nm, ", ".join(sorted(paths))))
+        # a public name may not be re-bound: `pub use momentum::Momentum as RateOfChange` makes the documented path mean another type
+        import os as _os
+        import rustlex as _lex
+        from extract import REPO as _REPO
+        src_root = _os.path.join(_os.path.abspath(a.repo) if a.repo else _REPO, "src")
+        for root_, dirs_, files_ in _os.walk(src_root):
+            dirs_.sort()
+            for fn_ in sorted(files_):
+                try:
+                    toks_ = _lex.tokens(open(_os.path.join(root_, fn_), encoding="utf-8", errors="replace").read())
+                except Exception:
+                    continue
+                for i_, (k_, t_, ln_) in enumerate(toks_):
+                    if k_ == "ident" and t_ == "use" and i_ > 0 and toks_[i_ - 1][1] in ("pub", ")"):
+                        j_ = i_
+                        while j_ < len(toks_) and toks_[j_][1] != ";":
+                            if toks_[j_][0] == "ident" and toks_[j_][1] == "as" and j_ + 1 < len(toks_) and toks_[j_ + 1][1] != "_":
+                                rep.violation("%s:ambiguous-name:re-export as %s" % (prop, toks_[j_ + 1][1]), "NAM", "%s:%d: a public re-export renames an item to `%s`: the documented path need not be the type the rules analyse under that name" % (_os.path.relpath(_os.path.join(root_, fn_), _os.path.dirname(src_root)), ln_, toks_[j_ + 1][1]))
+                            j_ += 1
         for nm, paths in sorted(tr_names.items()):
             if len(paths) > 1:
                 rep.violation("%s:ambiguous-name:trait %s" % (prop, nm), "NAM", "the crate defines %d traits called %s (%s)" % (len(paths), nm, ", ".join(sorted(paths))))
